@@ -346,7 +346,7 @@ func execC11(spec *RunSpec) *Result {
 		res = execC10(spec)
 	case "c12-grid":
 		res = execC12(spec)
-	case "c15-seq":
+	case "c15-seq", "c15-conc":
 		res = execC15(spec)
 	case "c16-history":
 		res = execC16(spec)
